@@ -23,6 +23,9 @@ func stateCommentStarted(s *Scanner, c byte) *jerr.JApiError {
 		s.step = stateCommentDouble
 		return nil
 	default:
+		// It is a single-line comment from now on: the other comment signs in
+		// this line are a part of its text, they can't open a block comment.
+		s.step = stateSingleComment
 		return stateSingleComment(s, c)
 	}
 }
@@ -33,6 +36,7 @@ func stateCommentDouble(s *Scanner, c byte) *jerr.JApiError {
 		s.step = stateCommentBlock
 		return nil
 	default:
+		s.step = stateSingleComment
 		return stateSingleComment(s, c)
 	}
 }
